@@ -238,6 +238,8 @@ class Proxy(object):
         annotations = current_context.annotations
         if vargs and isinstance(vargs[0], SerializedBlob):
             # special serialization of a 'blob' that stays serialized
+            # (its info travels as an annotation of this one request: don't write it into the thread's own annotations)
+            annotations = dict(annotations)
             data, flags = self.__serializeBlobArgs(vargs, kwargs, annotations, flags, objectId, methodname, serializer)
         else:
             # normal serialization of the remote call
